@@ -185,7 +185,12 @@ def rule_D3(tree: Tree) -> RuleResult:
     opened = [n for n in body_walk(run.node) if isinstance(n, ast.Call) and dotted(n.func) == "open" and len(n.args) > 1 and try_fold(n.args[1]) == "wb"]
     closes = [n for n in body_walk(run.node) if isinstance(n, ast.Call) and dotted(n.func) == "file.close"]
     ok = ok and len(opened) == 1 and len(closes) >= 2
-    r.ob(ok, Finding("D3", "main:run:writer", "the result must be written with one dpkt.pcapng.Writer on a file opened 'wb', as writepkt(bytes(frame), ts) per (frame, ts) pair, and the file closed", run.module.line(run.node)))
+    if ok:
+        rcfg = cfg_of(run.node)
+        o_n, w_n = rcfg.node_of(opened[0]), rcfg.node_of(wr[0])
+        # an output file that was opened is always given its pcapng header (Writer) — no return in between
+        ok = rcfg.postdominates(w_n, o_n) and not any(n.kind == "stmt" and isinstance(n.ast, ast.Return) and rcfg.dominates(o_n, n.id) and not rcfg.dominates(w_n, n.id) for n in rcfg.nodes)
+    r.ob(ok, Finding("D3", "main:run:writer", "the result must be written with one dpkt.pcapng.Writer on a file opened 'wb' — constructed on every path once the file is open, also when nothing was decrypted (otherwise a 0-byte, invalid file is left) — as writepkt(bytes(frame), ts) per (frame, ts) pair, and the file closed", run.module.line(run.node)))
     return r
 
 
